@@ -10,6 +10,7 @@ golibs policy is in the model; the invariant proofs do not depend on what
 Environment assumptions are spelled out in `OpOK` (AGH/Lemmas/HashPrefixHistory).
 -/
 import AGH.Lemmas.HashPrefixConc
+import AGH.Gen.C19Facts
 namespace AGH.C19
 open AGH AGH.Bytes
 
@@ -466,5 +467,27 @@ example : Valid exCf exW [.check exOp, .advance nsPerSec, .check exOp, .advance 
   cases h
 
 end Example
+
+
+/-! ## Translator tie: constants and the expressions the proofs are instantiated with (regenerated per run)
+
+`extract/cmd/c19` rewrites `Gen/C19Facts.lean` from the typed syntax of
+`internal/filtering/hashprefix`. -/
+
+/-- The constants of the current source are the model's; the expiry test is
+`now.After(item.expiry)` on the whole-second expiry read back from the item
+(`expired`: strictly after, nanosecond clock against seconds header), a new
+item expires `cacheTime` after now and its header is that instant's Unix
+second; only `hash[:prefixLen]` — two bytes — is hex-encoded into the question,
+and the cache is read and written under that two-byte key only. -/
+theorem C19_T_constants_and_expressions :
+    Gen.C19.prefixLen = prefixLen ∧ Gen.C19.hashSize = hashSize ∧ Gen.C19.hexSize = hexSize ∧
+      Gen.C19.expirySize = expirySize ∧ Gen.C19.subDomainNum = subDomainNum ∧
+      Gen.C19.expiryConds = ["now.After(item.expiry)"] ∧
+      Gen.C19.expiryInits = ["t", "time.Now().Add(c.cacheTime)"] ∧
+      Gen.C19.expirySerialised = ["item.expiry.Unix()"] ∧
+      Gen.C19.wireArgs = ["hash[:prefixLen]"] ∧
+      Gen.C19.cacheKeys = ["Get:hash[:prefixLen]", "Get:hash[:prefixLen]", "Set:pref[:]"] := by
+  decide
 
 end AGH.C19
